@@ -393,8 +393,10 @@ def elabGraphNode (s : NodeSpec) (g : GraphD) : NodeD :=
     dataOuts := innerOuts.map fun o => renameOf s.outRen o
     origOut := innerOuts.map fun o => (o, renameOf s.outRen o)
     emits := [], waitFor := s.waitFor
+    -- (`GraphNode.has_default_for`: bound inside, or some inner user has a default — but a signature default is ONE item, not the
+    --  collection to map over: a mapped-over parameter that is not bound inside has to be supplied)
     hasDefault := (innerIns.filter fun p =>
-      AL.has g.spec.bound p || (users p).any fun n => n.hasDefault.contains p).map cur
+      AL.has g.spec.bound p || (!s.mapOver.contains (cur p) && (users p).any fun n => n.hasDefault.contains p)).map cur
     sigDefaults := innerIns.filterMap fun p =>
       if AL.has g.spec.bound p then .none
       else
